@@ -930,14 +930,25 @@ func (g *gen) sched(n int) {
 			readers = append(readers, sr)
 			contents = append(contents, d)
 		}
-		g.runSched(readers, contents)
+		// every third case: two store objects on the directory; every fourth: files already in tmp/
+		g.runSched(readers, contents, i%3 == 1, i%4 == 2)
 	}
 }
 
-func (g *gen) runSched(readers []*scriptReader, contents [][]byte) {
+func (g *gen) runSched(readers []*scriptReader, contents [][]byte, two, strays bool) {
 	r := g.r
-	e := newFsEnv(false, r)
+	e := newFsEnv(strays, r)
 	defer e.close()
+	stores := []objects.Objects{e.o}
+	kind := "fs"
+	if two {
+		o2, err := objects.NewFS(e.dir)
+		if err != nil {
+			panic(err)
+		}
+		stores = append(stores, o2)
+		kind = "fs2"
+	}
 	nthr := len(readers)
 	done := make([]chan Obs, nthr)
 	finished := make([]bool, nthr)
@@ -956,7 +967,7 @@ func (g *gen) runSched(readers []*scriptReader, contents [][]byte) {
 	}
 	sort.Strings(pk)
 	tab := newTab()
-	c := &Case{Stream: "sched", Kind: "fs"}
+	c := &Case{Stream: "sched", Kind: kind}
 	left := nthr
 	for left > 0 && len(c.Steps) < 400 {
 		var cand []int
@@ -969,7 +980,7 @@ func (g *gen) runSched(readers []*scriptReader, contents [][]byte) {
 		sr := readers[t]
 		if !sr.started {
 			sr.started = true
-			go func(t int) { done[t] <- createObs(e.o, readers[t]) }(t)
+			go func(t int) { done[t] <- createObs(stores[t%len(stores)], readers[t]) }(t)
 		} else {
 			sr.gate <- struct{}{}
 		}
@@ -986,7 +997,7 @@ func (g *gen) runSched(readers []*scriptReader, contents [][]byte) {
 		}
 		st := Step{Tid: t, Ls: e.ls(), Probes: []Probe{}}
 		for _, k := range pk {
-			st.Probes = append(st.Probes, Probe{Key: k, Obs: openObs(e.o, k)})
+			st.Probes = append(st.Probes, Probe{Key: k, Obs: openObs(stores[(len(c.Steps)+len(st.Probes))%len(stores)], k)})
 		}
 		c.Steps = append(c.Steps, st)
 	}
@@ -1002,8 +1013,90 @@ func (g *gen) runSched(readers []*scriptReader, contents [][]byte) {
 	c.Results = results
 	fin := e.ls()
 	c.Final = &fin
+	c.Strays = e.straysState()
 	c.Tab = tab.rows
 	g.emit(c)
+}
+
+// ---- a slow writer watched from outside its lock ---------------------------
+//
+// Large contents are created through one store object while other goroutines
+// keep opening the key through a second store object on the same directory
+// (which has its own mutex) and read the file directly.  Whatever they get
+// must be the whole object: the final name only ever appears by rename.
+
+func (g *gen) peek(n, size int) {
+	r := g.r
+	for i := 0; i < n; i++ {
+		e := newFsEnv(false, r)
+		o2, err := objects.NewFS(e.dir)
+		if err != nil {
+			panic(err)
+		}
+		c := &Case{Stream: "fs-peek", Kind: "fs2"}
+		for round := 0; round < 3; round++ {
+			d := bytes.Repeat([]byte{byte(1 + r.Intn(255))}, size+r.Intn(size))
+			d = append(d, newStream(r, 12+r.Intn(20))...)
+			key := shaHex(d)
+			stop := make(chan struct{})
+			var mu sync.Mutex
+			var probes []Probe
+			var wg sync.WaitGroup
+			for p := 0; p < 4; p++ {
+				wg.Add(1)
+				go func(p int) {
+					defer wg.Done()
+					for {
+						select {
+						case <-stop:
+							return
+						default:
+						}
+						var ob Obs
+						if p%2 == 0 {
+							ob = openObsRaw(o2, key)
+						} else {
+							bs, err := os.ReadFile(filepath.Join(e.dir, key))
+							if err != nil {
+								ob = Obs{T: "notfound"}
+							} else {
+								ob = Obs{T: "found", d: bs}
+							}
+						}
+						if ob.T == "found" {
+							// only the digest and the length travel: the contents are megabytes
+							ob.Msg = fmt.Sprintf("%d:%s", len(ob.d), shaHex(ob.d))
+							ob.B, ob.d = nil, nil
+						}
+						mu.Lock()
+						if len(probes) < 40 || (ob.T == "found" && !strings.HasSuffix(ob.Msg, key)) {
+							if len(probes) < 400 {
+								probes = append(probes, Probe{Key: key, Obs: ob})
+							}
+						}
+						mu.Unlock()
+					}
+				}(p)
+			}
+			sr := newScript(splitPlan(r, d, 0, round%2))
+			ob := createObs(e.o, sr)
+			close(stop)
+			wg.Wait()
+			c.Results = append(c.Results, ob)
+			c.Ops = append(c.Ops, Op{Op: "create", Key: key, H: len(d)})
+			last := openObsRaw(o2, key)
+			if last.T == "found" {
+				last.Msg = fmt.Sprintf("%d:%s", len(last.d), shaHex(last.d))
+				last.B, last.d = nil, nil
+			}
+			probes = append(probes, Probe{Key: key, Obs: last})
+			c.Opens = append(c.Opens, probes...)
+		}
+		fin := e.ls()
+		c.Final = &fin
+		e.close()
+		g.emit(c)
+	}
 }
 
 // ---- free-running goroutines -----------------------------------------------
@@ -1376,6 +1469,100 @@ func (g *gen) memHistories(n, deep int) {
 	}
 }
 
+// ---- JSON helpers (objects/json.go) and the remaining constructors ----------
+
+type jval struct {
+	S string
+	N int
+	L []int
+	M map[string]string `json:",omitempty"`
+}
+
+func (g *gen) jsonCases(n int) {
+	r := g.r
+	for i := 0; i < n; i++ {
+		kind := []string{"fs", "mem", "mapped", "mapped-psqlnil"}[i%4]
+		var o objects.Objects
+		var env *fsEnv
+		switch kind {
+		case "fs":
+			env = newFsEnv(false, r)
+			o = env.o
+		case "mem":
+			o = objects.NewMem()
+		case "mapped":
+			o = objects.NewMapped(objects.NewMemStore())
+		default:
+			o = objects.NewMapped(objects.NewPsql(nil)) // no database: falls back to the memory store
+		}
+		c := &Case{Stream: "json", Kind: kind}
+		add := func(op Op, ob Obs) {
+			c.Ops = append(c.Ops, op)
+			c.Obs = append(c.Obs, ob)
+		}
+		var keys []string
+		var vals []jval
+		for j := 0; j < 1+r.Intn(4); j++ {
+			v := jval{S: hex.EncodeToString(r.Bytes(r.Intn(12))), N: int(int32(r.U64())), L: []int{r.Intn(9), j}}
+			if r.Bool() {
+				v.M = map[string]string{"k": "v", "a\"b": "<&>"}
+			}
+			bs, _ := json.Marshal(v)
+			k, err := objects.CreateJSON(o, v)
+			ob := Obs{T: "key", Key: k}
+			if err != nil {
+				ob = errObs(err)
+			}
+			add(Op{Op: "cjson", B: segsOf(bs)}, ob)
+			keys = append(keys, k)
+			vals = append(vals, v)
+		}
+		for j, k := range keys {
+			var got jval
+			err := objects.ReadJSON(o, k, &got)
+			ob := Obs{T: "bool", V: fmt.Sprint(got) == fmt.Sprint(vals[j])}
+			if err != nil {
+				ob = errObs(err)
+			}
+			add(Op{Op: "rjson", Key: k, H: 1}, ob)
+		}
+		// an absent key, an object that is not JSON, an object with bytes after the first value
+		var got jval
+		err := objects.ReadJSON(o, shaHex([]byte("absent")), &got)
+		ob := Obs{T: "bool", V: true}
+		if err != nil {
+			ob = errObs(err)
+			if errcode.IsNotFound(err) {
+				ob = Obs{T: "notfound"}
+			}
+		}
+		add(Op{Op: "rjson", Key: shaHex([]byte("absent")), H: 0}, ob)
+		raw := []byte("this is not JSON")
+		k1, _ := o.Create(bytes.NewReader(raw))
+		err = objects.ReadJSON(o, k1, &got)
+		ob = Obs{T: "bool", V: true}
+		if err != nil {
+			ob = errObs(err)
+		}
+		add(Op{Op: "rjson", Key: k1, H: 2, B: segsOf(raw)}, ob)
+		tail := []byte(`{"S":"x","N":1,"L":null} trailing`)
+		k2, _ := o.Create(bytes.NewReader(tail))
+		got = jval{}
+		err = objects.ReadJSON(o, k2, &got)
+		ob = Obs{T: "bool", V: got.S == "x" && got.N == 1}
+		if err != nil {
+			ob = errObs(err)
+		}
+		add(Op{Op: "rjson", Key: k2, H: 3, B: segsOf(tail)}, ob)
+		if env != nil {
+			fin := env.ls()
+			c.Final = &fin
+			env.close()
+		}
+		g.emit(c)
+	}
+}
+
 // ---- CheckReader ------------------------------------------------------------
 
 func crCode(err error) int {
@@ -1402,6 +1589,7 @@ func crCode(err error) int {
 }
 
 type crSpec struct {
+	maxCalls int // >0: the caller stops after this many Read calls, whatever they returned
 	stream  string
 	genuine []byte
 	want    []byte // digest handed over (raw ctor)
@@ -1443,6 +1631,10 @@ func (g *gen) runCr(s crSpec) {
 	tab := newTab()
 	extra := 2
 	for i := 0; i < 20000; i++ {
+		if s.maxCalls > 0 && i >= s.maxCalls {
+			c.Note = "early"
+			break
+		}
 		buf := make([]byte, s.sizes[i%len(s.sizes)])
 		n, err := cr.Read(buf)
 		code := crCode(err)
@@ -1468,6 +1660,106 @@ func (g *gen) runCr(s crSpec) {
 }
 
 func sum(d []byte) []byte { s := sha256.Sum256(d); return s[:] }
+
+// badReader breaks the io.Reader contract: it claims to have read more bytes
+// than the buffer holds, or a negative number.
+type badReader struct {
+	data  []byte
+	delta int // what is added to the honest count on the second call
+	calls int
+}
+
+func (b *badReader) Read(p []byte) (int, error) {
+	b.calls++
+	n := copy(p, b.data)
+	b.data = b.data[n:]
+	if b.calls == 2 {
+		if b.delta < 0 {
+			return b.delta, nil
+		}
+		return len(p) + b.delta, nil
+	}
+	if len(b.data) == 0 {
+		return n, io.EOF
+	}
+	return n, nil
+}
+
+// zeros yields n zero bytes without holding them.
+type zeros struct{ left int64 }
+
+func (z *zeros) Read(p []byte) (int, error) {
+	if z.left == 0 {
+		return 0, io.EOF
+	}
+	n := int64(len(p))
+	if n > z.left {
+		n = z.left
+	}
+	for i := int64(0); i < n; i++ {
+		p[i] = 0
+	}
+	z.left -= n
+	return int(n), nil
+}
+
+// hugeCase: a genuine stream of more than 2^31 bytes with its length declared
+// (thorough tier): a byte count kept in anything narrower than 64 bits shows.
+func (g *gen) hugeCase() {
+	const total = int64(1)<<31 + 5
+	h := sha256.New()
+	io.Copy(h, &zeros{left: total})
+	want := h.Sum(nil)
+	for _, n := range []int64{total, -1} {
+		cr := hashutil.NewSHA256CheckReader(&zeros{left: total}, want, n)
+		got, err := io.Copy(io.Discard, cr)
+		code := 1
+		if err != nil {
+			code = crCode(err)
+		}
+		c := &Case{Stream: "cr-huge", Ctor: "raw", N: n, Want: hex.EncodeToString(want),
+			Note: fmt.Sprintf("genuine stream of %d zero bytes, %d handed on", total, got)}
+		c.Trace = TraceJ{TraceEntry{C: code}}
+		g.emit(c)
+	}
+}
+
+// contractCases: what CheckReader does over a reader that violates the
+// contract. Observed only (the model has no such reader): a panic or an error
+// is fine, a certified end-of-stream is not.
+func (g *gen) contractCases() {
+	for _, delta := range []int{1, 1 << 20, -1} {
+		for _, n := range []int64{-1, 8} {
+			d := []byte("12345678")
+			c := &Case{Stream: "cr-contract", Ctor: "raw", N: n, Genuine: segsOf(d), Want: hex.EncodeToString(sum(d)),
+				Note: fmt.Sprintf("underlying reader returns len(buf)%+d on its second call", delta)}
+			cr := hashutil.NewSHA256CheckReader(&badReader{data: d, delta: delta}, sum(d), n)
+			for i := 0; i < 6; i++ {
+				var nn int
+				var err error
+				var pan interface{}
+				func() {
+					defer func() { pan = recover() }()
+					buf := make([]byte, 3)
+					nn, err = cr.Read(buf)
+				}()
+				code := crCode(err)
+				if pan != nil {
+					code = 98
+					c.Note += "; panic: " + short(fmt.Sprint(pan))
+				}
+				if nn < 0 || nn > 3 {
+					nn = 0
+				}
+				c.Trace = append(c.Trace, TraceEntry{C: code, d: make([]byte, nn)})
+				if code != 0 {
+					break
+				}
+			}
+			g.emit(c)
+		}
+	}
+}
 
 func (g *gen) checkReaders(scale, deep int) {
 	r := g.r
@@ -1569,6 +1861,43 @@ func (g *gen) checkReaders(scale, deep int) {
 			}
 		}
 	}
+	// callers that stop early: after k calls, and after exactly the declared number of bytes
+	for _, L := range []int{2, 5, 33} {
+		d := newStream(r, L)
+		bad := append([]byte{}, d...)
+		bad[L/2] ^= 0x10
+		for _, deliver := range [][]byte{d, bad, d[:L-1], append(append([]byte{}, d...), 7)} {
+			for _, n := range declared(d) {
+				for k := 1; k <= 3; k++ {
+					g.runCr(crSpec{stream: "cr-early", genuine: d, want: sum(d), ctor: "raw", n: n, maxCalls: k,
+						plan: splitPlan(r, deliver, r.Intn(4), r.Intn(2)), sizes: [][]int{{1}, {7}, {L}}[k%3]})
+				}
+				// io.ReadFull-like: exactly len(d) bytes in one buffer, then no further call
+				g.runCr(crSpec{stream: "cr-early", genuine: d, want: sum(d), ctor: "raw", n: n, maxCalls: 1,
+					plan: splitPlan(r, deliver, 0, 0), sizes: []int{L}})
+			}
+		}
+	}
+	// a reader that keeps returning (0, nil)
+	for _, zeros := range []int{1, 30, 300} {
+		d := newStream(r, 20)
+		var p []Chunk
+		for z := 0; z < zeros; z++ {
+			p = append(p, plan(nil, stNil, 0))
+		}
+		p = append(p, plan(d[:10], stNil, 0))
+		for z := 0; z < zeros; z++ {
+			p = append(p, plan(nil, stNil, 0))
+		}
+		p = append(p, plan(d[10:], stNil, 0), plan(nil, stEOF, 0))
+		for _, n := range declared(d) {
+			g.runCr(crSpec{stream: "cr-zero", genuine: d, want: sum(d), ctor: "raw", n: n, plan: p, sizes: []int{7}})
+		}
+	}
+	g.contractCases()
+	if deep > 1 {
+		g.hugeCase()
+	}
 	// the "sha256:<hex>" constructor
 	{
 		d := newStream(r, 20)
@@ -1623,7 +1952,7 @@ func main() {
 	dir := flag.String("dir", "", "scratch directory for store directories")
 	big := flag.Int("big", 70000, "size of the largest contents")
 	deep := flag.Int("deep", 1, "depth of the enumerations")
-	streams := flag.String("streams", "", "comma separated subset of: mem,fsfault,fsos,fshist,sched,free,cr (default all)")
+	streams := flag.String("streams", "", "comma separated subset of: mem,fsfault,fsos,fshist,sched,peek,free,json,cr (default all)")
 	flag.Parse()
 	if *dir == "" {
 		fmt.Fprintln(os.Stderr, "need -dir")
@@ -1662,8 +1991,14 @@ func main() {
 	if on("sched") {
 		g.sched(*n / 2)
 	}
+	if on("peek") {
+		g.peek(2+*deep, *big*16)
+	}
 	if on("free") {
 		g.free(*n/4, []string{"fs", "fs2", "mem", "mapped", "fs"})
+	}
+	if on("json") {
+		g.jsonCases(8 + *n/10)
 	}
 	if on("cr") {
 		g.checkReaders(*n, *deep)
